@@ -22,6 +22,8 @@ def run(ctx):
         j['env']['VERIF_CMD_DELAY'] = str(rng.choice([30, 60, 120]))
         j['env'].pop('VERIF_WORKER_DELAY', None)
         jobs.append(j)
+    for i in range(12 if ctx.thorough else 4):
+        jobs.append(e2ejobs.job(rng, strategy=['ddmin', 'hybrid'][i % 2], jobs=1, size='small' if i % 2 else 'medium'))
     runs = e2e.run_many(jobs)
     for j, r in zip(jobs, runs):
         P = e2e.analyse(r)
@@ -79,6 +81,25 @@ def run(ctx):
                          mutator=inst['gen']['mutator'], gran=inst['gen']['gran'], parallel=inst['gen']['parallel'], detail=msg)
     ctx.count('ddmin task-generator instances replayed', len(dmeta))
     ctx.count('ddmin model actions replayed', dact)
+    # the top level of ddmin (reduce / _apply_mutator): sequential runs are replayed by the model's reduce (dispatch 82)
+    import ddtopmon
+    tcalls, tmeta = [], []
+    for j, r in zip(jobs, runs):
+        if r.hung or r.rc != 0:
+            continue
+        b = ddtopmon.build(r.events)
+        if b is None:
+            continue
+        if 'error' in b:
+            ctx.disagree('ddmin top level (reconstruction)', input=j['text'][:600], options=j['opts'], detail=b['error'])
+            continue
+        tcalls.append((82, b['arg']))
+        tmeta.append((j, b))
+    for (j, b), r_ in zip(tmeta, model.batch(tcalls)):
+        for msg in ddtopmon.compare(r_, b):
+            ctx.disagree('ddmin top level vs Model/DdminTop.v', input=j['text'][:800], options=j['opts'], command=j['cmd'], detail=msg)
+    ctx.count('sequential ddmin runs replayed by reduce of Model/DdminTop.v', len(tmeta))
+    ctx.count('task generators in those runs', sum(b['ngens'] for _, b in tmeta))
     ctx.extra['runs'] = len(runs)
     ctx.assumptions += ['Pool delivers one result per generated task; the launcher\'s wrappers observe the real calls',
                         'token digests identify contents (sha1 over the token sequence)']
